@@ -53,6 +53,9 @@ func (f *Fam) genInit(r *rand.Rand) string {
 		}
 		sb.WriteString(hx(Keys[i].Addr))
 	}
+	if r.Intn(5) == 0 {
+		sb.WriteString(" gs=derived") // no explicit supply in the genesis: the auth module derives it from the accounts
+	}
 	sb.WriteString(" ksh=") // the shape of every key: p plain, m(..) multisignature over its components
 	for i, k := range Keys {
 		if i > 0 {
@@ -526,6 +529,11 @@ func (f *Fam) genTx1(r *rand.Rand, s *Snapshot) string {
 		// an upgrade height the chain will not reach: at that height the gov module's BeginBlock stops the process
 		// for the upgrade (by design), which is not a behaviour the line protocol can observe
 		fields = fmt.Sprintf("from=%s h=%d ver=%s", addr, pick(r, 0, 1000000, 5000000), []string{"1.0", "2.0"}[r.Intn(2)])
+		if r.Intn(3) == 0 {
+			// a plan for a version the node already runs (no stop), at a height the chain is about to reach: the plan
+			// stays what it is when that height comes and goes
+			fields = fmt.Sprintf("from=%s h=%d ver=%s", addr, f.height+pick(r, 1, 1, 2, 3), []string{"0.0.1", "0.0.0"}[r.Intn(2)])
+		}
 	}
 	// who signs: usually the declared signer; sometimes another key (attack)
 	if r.Intn(25) == 0 {
@@ -647,7 +655,9 @@ func (f *Fam) Gen(r *rand.Rand, i int) string {
 	case 4:
 		f.gen.phase = 1
 		f.gen.blocks++
-		if r.Intn(12) == 0 {
+		if r.Intn(40) == 0 {
+			f.gen.phase = 7
+		} else if r.Intn(12) == 0 {
 			f.gen.phase = 6 // between two blocks: store queries through the ABCI interface
 		} else {
 			// between two blocks: export the state and restart two fresh instances from it - mostly when the import
@@ -681,6 +691,9 @@ func (f *Fam) Gen(r *rand.Rand, i int) string {
 	case 6:
 		f.gen.phase = 1
 		return "mon.query"
+	case 7:
+		f.gen.phase = 1
+		return fmt.Sprintf("mon.glue %d", r.Int63())
 	}
 	return f.genInit(r)
 }
